@@ -36,6 +36,18 @@ def linear(ix, n, env, depth=12):
             vi = kids(vi)[0]
             if vi in env:
                 return dict(env[vi])
+        if tag(vi) == "op" and payload(vi)[0] in ("max", "min") and len(kids(vi)) == 2 and env.get("$facts"):
+            # max(a, b) / min(a, b) under a path fact that orders a and b
+            a, b = ix.inline(kids(vi)[0]), ix.inline(kids(vi)[1])
+            small = None
+            for (nm, x, y, o) in env["$facts"]:
+                if {x, y} != {a, b}:
+                    continue
+                lo, hi = (x, y) if ((nm in ("le", "lt")) == bool(o)) else (y, x)
+                small = lo
+            if small is not None:
+                big = b if small == a else a
+                return linear(ix, ("leaf", big if payload(vi)[0] == "max" else small), env, depth - 1)
         if tag(vi) == "op" and payload(vi)[0] in ("u64.checked_sub", "sub", "add", "u.checked_sub", "u.checked_add", "u.sub", "u.add") and len(kids(vi)) == 2:
             a, b = kids(vi)
             la, lb = linear(ix, ("leaf", a), env, depth - 1), linear(ix, ("leaf", b), env, depth - 1)
@@ -321,6 +333,8 @@ def run(ctx):
             if r[0] != "div":
                 n_single += 1
                 continue
+            env["$facts"] = [(payload(ix.inline(at))[0], ix.inline(kids(ix.inline(at))[0]), ix.inline(kids(ix.inline(at))[1]), o)
+                             for (at, o, _b, _l) in p.conds if o in (True, False) and tag(ix.inline(at)) == "op" and payload(ix.inline(at))[0] in ("le", "lt", "ge", "gt") and len(kids(ix.inline(at))) == 2]
             n_avg += 1
             num, den = r[1], r[2]
             terms = []
@@ -363,3 +377,123 @@ def run(ctx):
                                                                          {(sym.show(k, 3) if isinstance(k, int) else k): c for k, c in ld.items()})
         ctx.inst("R18.4", "twap-weights:%s" % short_fn(f), bad is None and n_avg >= 2 and n_single >= 1, f.where(),
                  bad or "%d single-price results, %d averaged results on the unrolled prefix: weights telescope to the divisor" % (n_single, n_avg))
+
+    # ---------------------------------------------------------------- R18.5
+    # what the vAMM's three TWAP queries average: composed from the query arm's parameters and the per-snapshot price
+    # function the TWAP loop calls (no field or helper names involved: the arm's parameter value is substituted into that
+    # function and only the paths it makes feasible are looked at)
+    ctx.rule("R18.5", "vAMM TWAP queries: TwapPrice averages snapshot quote*D/base, InputTwap / OutputTwap average the input / output pricing function of (msg.direction, msg.amount) on the snapshot's reserves, starting at the latest snapshot, over 900 s / msg.interval", 3)
+    tw = [f for f in twaps if f.crate == VAMM]
+    pricing = {}
+    for variant in ("InputAmount", "OutputAmount"):
+        try:
+            qa_ = arms.Arm(ix, VAMM, variant, entry="query")
+            for q in qa_.ok_paths():
+                for e in q.events:
+                    if e.target is not None and sum(1 for a_ in e.args if guards.is_field_of_item(ix, a_, VAMM, "margined_vamm:state", "quote_asset_reserve") or
+                                                    guards.is_field_of_item(ix, a_, VAMM, "margined_vamm:state", "base_asset_reserve")) == 2:
+                        pricing[variant] = e.target
+        except KeyError as e:
+            ctx.lost("R18.5", str(e))
+    if not tw or len(pricing) != 2:
+        ctx.lost("R18.5", "vAMM TWAP function / the two pricing functions")
+    else:
+        twf = tw[0]
+        # the per-snapshot price function: called by the TWAP function, takes the same parameter struct
+        pty = [twf.locals[i + 1]["ty"] for i in range(twf.arg_count) if "::" in twf.locals[i + 1]["ty"] and not twf.locals[i + 1]["ty"].startswith("cosmwasm_std")]
+        pricef = None
+        for p in ix.paths(twf):
+            for e in p.events:
+                if e.target is not None and any(e.target.locals[i + 1]["ty"] in pty for i in range(e.target.arg_count)):
+                    pricef = e.target
+        if pricef is None:
+            ctx.lost("R18.5", "the per-snapshot price function the TWAP loop calls")
+        for variant, want in (("TwapPrice", "reserve"), ("InputTwap", "InputAmount"), ("OutputTwap", "OutputAmount")):
+            if pricef is None:
+                break
+            try:
+                a = arms.Arm(ix, VAMM, variant, entry="query")
+            except KeyError as e:
+                ctx.lost("R18.5", str(e))
+                continue
+            bad = None
+            n_ok = 0
+            for q in a.ok_paths():
+                call = None
+                for e in q.events:
+                    if e.target is not None and e.target.key == twf.key:
+                        call = e
+                if call is None:
+                    bad = bad or "the arm does not return the TWAP function's result"
+                    continue
+                r = ix.inline(a.s(sym.unwrap(q.ret)))
+                if ix.inline(a.s(sym.unwrap(call.result))) != r and ix.inline(a.s(call.result)) != ix.inline(a.s(q.ret)):
+                    bad = bad or "the arm's answer is not the TWAP function's result unchanged"
+                args = [ix.inline(a.s(x)) for x in call.args]
+                pidx = [i for i in range(twf.arg_count) if twf.locals[i + 1]["ty"] in pty]
+                iidx = [i for i in range(twf.arg_count) if twf.locals[i + 1]["ty"] == "u64"]
+                if not pidx or not iidx:
+                    bad = bad or "TWAP function signature not recognised"
+                    continue
+                pv, iv = args[pidx[0]], args[iidx[-1]]
+                # interval
+                if variant == "TwapPrice":
+                    if iv != a.msgfield("interval"):
+                        bad = bad or "interval is %s, not msg.interval" % sym.show(iv, 4)
+                elif not (tag(iv) == "int" and int(payload(iv)[0]) == 900):
+                    bad = bad or "interval is %s, not 900 s" % sym.show(iv, 4)
+                # starts at the latest snapshot: some field of the parameter value is the stored counter
+                def is_counter(x):
+                    while tag(x) in ("unwrap", "ok"):
+                        x = kids(x)[0]
+                    return guards.loaded_item(ix, x, VAMM) == CNT
+                if not any(is_counter(x) for x in kids(pv)):
+                    bad = bad or "the averaging does not start at snapshot[counter]"
+                # compose with the per-snapshot price function
+                ppar = [sym.param(pricef.key, i, pricef.param_name(i)) for i in range(pricef.arg_count) if pricef.locals[i + 1]["ty"] in pty]
+                if not ppar:
+                    bad = bad or "price function signature not recognised"
+                    continue
+                m = {ppar[0]: pv}
+                feas = ix.ok_paths_at(pricef, m)
+                if not feas:
+                    bad = bad or "no feasible path of the per-snapshot price function for this arm's parameters"
+                for fp in feas:
+                    rv = ix.inline(sym.subst(sym.unwrap(fp.ret) if tag(fp.ret) == "agg" else fp.ret, m))
+                    while tag(rv) in ("unwrap", "ok") or (tag(rv) == "agg" and payload(rv)[1] == "Ok" and len(kids(rv)) == 1):
+                        rv = kids(rv)[0]
+                    if tag(rv) == "int" and int(payload(rv)[0]) == 0 and want != "reserve":
+                        # zero-amount shortcut: must be conditioned on the asked amount being zero
+                        z = any(tag(ix.inline(sym.subst(at, m))) == "op" and payload(ix.inline(sym.subst(at, m)))[0] == "is_zero" and o is True and
+                                ix.inline(kids(ix.inline(sym.subst(at, m)))[0]) == a.msgfield("amount") for (at, o, _b, _l) in fp.conds)
+                        if not z:
+                            bad = bad or "a path answers 0 without the asked amount being zero"
+                        continue
+
+                    def snapfield(v, name):
+                        vi = ix.inline(v)
+                        return tag(vi) == "field" and payload(vi)[0] == name and guards.loaded_item(ix, kids(vi)[0], VAMM) == SNAP
+                    if want == "reserve":
+                        nn = N(ix, rv)
+                        ok_ = nn[0] == "div" and nn[1][0] == "mul" and nn[2][0] == "leaf" and snapfield(nn[2][1], "base_asset_reserve") and \
+                            any(t_[0] == "leaf" and snapfield(t_[1], "quote_asset_reserve") for t_ in nn[1][1:]) and \
+                            any(t_[0] == "leaf" and guards.is_field_of_item(ix, t_[1], VAMM, "margined_vamm:config", "decimals") for t_ in nn[1][1:])
+                        if not ok_:
+                            bad = bad or "per-snapshot price is %s, not snapshot.quote * decimals / snapshot.base" % norm.show(nn)[:160]
+                    else:
+                        tgt = ix.call_target(rv) if tag(rv) == "call" else None
+                        if tgt is None or tgt.key != pricing[want].key:
+                            bad = bad or "per-snapshot figure is %s, not the %s pricing function" % (sym.show(rv, 3)[:120], want)
+                        else:
+                            ks = [ix.inline(k) for k in kids(rv)]
+                            if a.msgfield("direction") not in ks or a.msgfield("amount") not in ks or \
+                               not any(snapfield(k, "quote_asset_reserve") for k in ks) or not any(snapfield(k, "base_asset_reserve") for k in ks):
+                                bad = bad or "pricing call is %s: not (msg.direction, msg.amount, snapshot reserves)" % sym.show(rv, 4)[:200]
+                            else:
+                                # reserves in the callee's order: quote where the execute arm passes the quote reserve
+                                qi = [i for i, k in enumerate(ks) if snapfield(k, "quote_asset_reserve")][0]
+                                bi = [i for i, k in enumerate(ks) if snapfield(k, "base_asset_reserve")][0]
+                                if qi > bi:
+                                    bad = bad or "snapshot reserves are passed in the wrong order"
+                    n_ok += 1
+            ctx.inst("R18.5", "twap-query:%s" % variant, bad is None and n_ok > 0, a.fn.where(), bad or "%d feasible per-snapshot paths: the right figure of (msg.direction, msg.amount) on the snapshot's reserves" % n_ok)
